@@ -103,14 +103,16 @@ def tlc_variants(work, files, mode, nvar, seed, maxsize=6000, edges=None):
     return allv
 
 
-def reader_dumps(work, paths, flavor="asan", mode="dump", label="rd"):
-    """rd_driver on a list of files (sharded); returns {filename: event}"""
+def reader_dumps(work, paths, flavor="asan", mode="dump", label="rd", chunk=1):
+    """rd_driver on a list of files (sharded; `chunk` consecutive files stay together, in order, in one process);
+    returns {filename: event}"""
     exe = vlib.build_driver("rd_driver", flavor)
-    nsh = min(vlib.NCPU, max(1, len(paths)))
+    groups = [paths[i:i + chunk] for i in range(0, len(paths), chunk)]
+    nsh = min(vlib.NCPU, max(1, len(groups)))
     cmds, outs = [], []
     for i in range(nsh):
         lst = work / f"{label}.list.{i}"
-        lst.write_text("\n".join(str(p) for p in paths[i::nsh]) + "\n")
+        lst.write_text("\n".join(str(p) for g in groups[i::nsh] for p in g) + "\n")
         o = work / f"{label}.out.{i}.ndjson"
         outs.append(o)
         cmds.append([exe, mode, lst, o])
